@@ -82,6 +82,33 @@ def dseq_task(task):
                 exp[bad] if bad < len(exp) else None, len(got), len(exp)),
                res_replay(r, expected=exp[:50]), cls=c)
     sh.sample(dict(cmd=core.shq(argv), output=got[:4]), cap=1)
+    # anchored on LAST: the k-th element from the end is LAST - k months taken in one step; FIRST a few days before the
+    # earliest element so that nothing else fits
+    expl = []
+    for k in range(count + 1):
+        t = dur.add_months_ymd(o, -k * step)
+        if t is None or not dur.in_range(t - 40):
+            break
+        expl.append(t)
+    if len(expl) >= 2:
+        first = expl[-1] - (3 if cal.Day(expl[-1]).d > 3 else 0)
+        expl_txt = [cal.Day(t).ymd() for t in reversed(expl)]
+        argv = [str(bindir / "dseq"), cal.Day(first).ymd(), "%dmo" % step, expl_txt[-1], "--compute-from-last"]
+        r = run(argv, cpu=20, wall=120, max_out=1 << 20)
+        sh.procs += 1
+        if not sh.check_san(r, "san", "dseqmo:san"):
+            got = r.out.decode("latin-1").split("\n")[:-1]
+            c = ("dseq-mo-from-last", "dom%d" % D.d if D.d >= 28 else "dom<28", "step%d" % step)
+            if got == expl_txt:
+                sh.ok("dseqmo", c, n=len(expl_txt))
+            else:
+                bad = next((i for i, (a, b) in enumerate(zip(got, expl_txt)) if a != b), min(len(got), len(expl_txt)))
+                sh.bad("dseqmo", "dseqmo:from-last:dom=%s:step=%d:%s" % (D.d if D.d >= 28 else "lt28", step,
+                                                                         "count" if len(got) != len(expl_txt) else "value"),
+                       "%s: element %d is %r, expected %r (%d/%d lines)" %
+                       (core.shq(argv), bad, got[bad] if bad < len(got) else None,
+                        expl_txt[bad] if bad < len(expl_txt) else None, len(got), len(expl_txt)),
+                       res_replay(r, expected=expl_txt[:50]), cls=c)
     return sh
 
 
@@ -251,7 +278,7 @@ def main(tier, seed):
                 "the oracle (year/month moved by exactly N, day | weekday-count | business-day index | ISO week | "
                 "day-of-year kept and clamped); start days: dom in {1,15,28..31} of every month, ymcw count>=4, "
                 "ywd week>=52, yd Dec 30/31, bizda index>=19, plus random; N months +-%s, quarters +-%s, years "
-                "+-%s, random; two-step compositions in one invocation; dseq A Nmo B sequences; date-times in a zone's "
+                "+-%s, random; two-step compositions in one invocation; dseq A Nmo B sequences, also anchored on B (--compute-from-last); date-times in a zone's "
                 "wall clock (dadd --from-zone Z --zone Z, 6 zones, operand on stdin lines and as the argument): the wall-clock "
                 "date moves by N months/years (clamped), the time of day stays, judged where both readings exist exactly once. "
                 "distinct_nontrivial = distinct (calendar, unit tag, sign, carry class, weekday)" %
